@@ -3,13 +3,415 @@
 package main
 
 import (
+	"encoding/json"
+	"fmt"
+	"sort"
+	"strconv"
+
+	sentinel "github.com/alibaba/sentinel-golang/api"
+	"github.com/alibaba/sentinel-golang/core/base"
+	"github.com/alibaba/sentinel-golang/core/flow"
+
 	"vh/internal/cli"
 	"vh/internal/emit"
 	"vh/internal/rng"
+	"vh/internal/sched"
 	"vh/internal/vclock"
 )
 
+// Concurrent callers: k goroutines each perform one sentinel.Entry on a resource with one
+// throttling rule; the deterministic scheduler parks them at the yield points 201..205 that
+// precede every atomic access of ThrottlingChecker.DoCheck; the schedule interleaves single
+// steps of callers with moves of the virtual clock.
+
 const concBase = 100000
 
+type evT struct {
+	Kind string `json:"kind"` // run | clock
+	Tid  int    `json:"tid,omitempty"`
+	Ns   uint64 `json:"ns,omitempty"`
+}
+
+type concCase struct {
+	ID        int      `json:"id"`
+	Name      string   `json:"name,omitempty"`
+	T         fl       `json:"threshold"`
+	TimeoutMs uint32   `json:"max_queueing_ms"`
+	StatMs    uint32   `json:"stat_interval_ms"`
+	Batches   []uint32 `json:"batches"`
+	Events    []evT    `json:"events"`
+}
+
+type concObs struct {
+	Labels   []int   `json:"labels"` // per event: label the stepped caller parks at (0 for clock events)
+	Ats      []int   `json:"-"`      // per event: label the stepped caller was parked at before
+	Out      []obsT  `json:"outcomes"`
+	Arrival  []int64 `json:"arrivals"`
+	Paths    [][]int `json:"paths"` // per caller: the labels it was parked at before each of its steps
+	StepIdx  [][]int `json:"-"`     // per caller: event index of each of its steps
+	Finished bool    `json:"finished"`
+}
+
+func run(tid int) evT     { return evT{Kind: "run", Tid: tid} }
+func clock(ns uint64) evT { return evT{Kind: "clock", Ns: ns} }
+func runN(tid, n int) []evT {
+	var e []evT
+	for i := 0; i < n; i++ {
+		e = append(e, run(tid))
+	}
+	return e
+}
+func cat(xs ...[]evT) []evT {
+	var e []evT
+	for _, x := range xs {
+		e = append(e, x...)
+	}
+	return e
+}
+func one(e evT) []evT { return []evT{e} }
+
+const sec = uint64(1000000000)
+
+// witnessD8: add/rollback overlapping another caller's admission (DESIGN section 8, D8).
+// Callers: 0=R0 1=A 2=D 3=B 4=C. threshold 1/s, max queueing 500 ms.
+func witnessD8(id int) concCase {
+	t := t0ns
+	return concCase{ID: id, Name: "D8-rollback-overlap", T: 1, TimeoutMs: 500, StatMs: 0, Batches: []uint32{1, 1, 1, 1, 1},
+		Events: cat(one(clock(t)), runN(0, 3), // R0 passes at +0.0 by CAS
+			one(clock(t+sec/2)), runN(1, 3), // A (+0.5) passed the 203 test, parked before its Add
+			runN(2, 4),                        // D (+0.5) is scheduled for +1.0
+			runN(1, 1),                        // A adds: +2.0, over the limit, parked before its rollback
+			one(clock(t+5*sec/2)), runN(3, 4), // B (+2.5) is admitted on the inflated value: pass +3.0
+			runN(1, 1),  // A rolls back: stored time +2.0
+			runN(4, 4))} // C (+2.5): pass +3.0 again
+}
+
+// witnessStale: the loser of a CAS whose clock reading is older... rather: the winner's
+// reading is older than the loser's by more than two intervals; the loser is admitted by Add
+// with a negative estimated wait (sleeps 0, passes now) while the stored time stays in the past.
+// Callers: 0=B 1=A 2=C. threshold 1/s, max queueing 500 ms.
+func witnessStale(id int) concCase {
+	t := t0ns
+	return concCase{ID: id, Name: "stale-add-after-lost-cas", T: 1, TimeoutMs: 500, StatMs: 0, Batches: []uint32{1, 1, 1},
+		Events: cat(one(clock(t)), runN(0, 1), // B reads the clock (+0.0)
+			one(clock(t+3*sec)), runN(1, 2), // A (+3.0) loaded the initial value, parked before its CAS
+			runN(0, 2),  // B loads and wins the CAS: stored +0.0, passes
+			runN(1, 3),  // A loses the CAS, est = +1.0 - +3.0 < 0: Add, stored +1.0, A passes at +3.0 with wait 0
+			runN(2, 3))} // C (+3.0): stored +1.0 + 1 s <= now: CAS to +3.0, passes at +3.0 as well
+}
+
+func genConc(r *rng.R, id int) concCase {
+	switch id - concBase {
+	case 0:
+		return witnessD8(id)
+	case 1:
+		return witnessStale(id)
+	}
+	c := concCase{ID: id}
+	c.T = fl(r.PickF(1, 1, 2, 5, 10, 2.5, 1000))
+	c.StatMs = uint32(r.PickI(0, 1000, 100, 2000))
+	iv := ivOf(float64(c.T), c.StatMs, 1)
+	ivMs := iv / 1000000
+	if ivMs < 1 {
+		ivMs = 1
+	}
+	c.TimeoutMs = uint32(r.PickI(0, ivMs/2, ivMs/2, ivMs, 2*ivMs, 3*ivMs, 10*ivMs))
+	k := 2 + r.Intn(4)
+	for i := 0; i < k; i++ {
+		c.Batches = append(c.Batches, uint32(r.PickI(1, 1, 1, 1, 2, 0, 3)))
+	}
+	now := t0ns + uint64(r.Range(0, 1000000000))
+	c.Events = append(c.Events, clock(now))
+	if r.Chance(7, 10) { // a first caller runs alone so that the stored time is near the clock
+		c.Events = append(c.Events, runN(0, 3)...)
+	}
+	steps := 4*k + r.Intn(3*k)
+	for i := 0; i < steps; i++ {
+		if r.Chance(1, 4) {
+			switch r.Intn(6) {
+			case 0:
+				now += uint64(iv / 2)
+			case 1:
+				now += uint64(iv)
+			case 2:
+				now += uint64(2*iv) + uint64(r.Range(0, iv))
+			case 3:
+				now += uint64(r.Range(0, iv/4+1))
+			case 4:
+				now += 1
+			default:
+				now += uint64(3 * iv)
+			}
+			c.Events = append(c.Events, clock(now))
+		}
+		tid := r.Intn(k)
+		n := 1
+		if r.Chance(1, 3) {
+			n = 1 + r.Intn(4)
+		}
+		c.Events = append(c.Events, runN(tid, n)...)
+	}
+	// let every caller finish (at most 6 steps each), in a random order
+	for round := 0; round < 6; round++ {
+		for _, tid := range r.Perm(k) {
+			c.Events = append(c.Events, run(tid))
+		}
+	}
+	return c
+}
+
+func runConc(c concCase, clk *vclock.Clock) concObs {
+	res := "c10k-" + strconv.Itoa(c.ID)
+	rule := &flow.Rule{Resource: res, TokenCalculateStrategy: flow.Direct, ControlBehavior: flow.Throttling,
+		Threshold: float64(c.T), MaxQueueingTimeMs: c.TimeoutMs, StatIntervalInMs: c.StatMs}
+	if _, err := flow.LoadRules([]*flow.Rule{rule}); err != nil {
+		panic(err)
+	}
+	s := sched.New(func(id int) bool { return id >= 201 && id <= 205 })
+	defer s.Close()
+	k := len(c.Batches)
+	o := concObs{Out: make([]obsT, k), Arrival: make([]int64, k), Paths: make([][]int, k), StepIdx: make([][]int, k)}
+	passed := make([]bool, k)
+	btype := make([]string, k)
+	for i := 0; i < k; i++ {
+		i := i
+		s.Spawn(func() {
+			e, berr := sentinel.Entry(res, sentinel.WithBatchCount(c.Batches[i]))
+			if berr != nil {
+				btype[i] = "other"
+				if berr.BlockType() == base.BlockTypeFlow {
+					btype[i] = "flow"
+				}
+				return
+			}
+			passed[i] = true
+			e.Exit()
+		})
+	}
+	waits := make([]int64, k)
+	nslp := make([]int, k)
+	for ei, e := range c.Events {
+		if e.Kind == "clock" {
+			clk.SetNs(e.Ns)
+			o.Labels = append(o.Labels, 0)
+			o.Ats = append(o.Ats, 0)
+			continue
+		}
+		at := s.At(e.Tid)
+		if at == sched.Start {
+			o.Arrival[e.Tid] = int64(clk.CurrentTimeNano())
+		}
+		clk.TakeSleeps()
+		l := s.Step(e.Tid)
+		if l == -2 {
+			panic(fmt.Sprintf("case %d: caller %d blocked outside a yield point", c.ID, e.Tid))
+		}
+		if p := s.Panic(e.Tid); p != nil {
+			panic(fmt.Sprintf("case %d: caller %d panicked: %v", c.ID, e.Tid, p))
+		}
+		for _, d := range clk.TakeSleeps() {
+			waits[e.Tid] += int64(d)
+			nslp[e.Tid]++
+		}
+		o.Labels = append(o.Labels, l)
+		o.Ats = append(o.Ats, at)
+		if at != sched.Done {
+			o.Paths[e.Tid] = append(o.Paths[e.Tid], at)
+			o.StepIdx[e.Tid] = append(o.StepIdx[e.Tid], ei)
+		}
+	}
+	o.Finished = true
+	for i := 0; i < k; i++ {
+		if !s.IsDone(i) {
+			o.Finished = false
+			s.Finish(i)
+		}
+		o.Out[i] = obsT{Pass: passed[i], Wait: waits[i], NSlp: nslp[i], BType: btype[i]}
+	}
+	return o
+}
+
+const (
+	sigD8    = "rollback-overlaps-admission-pass-times-too-close"
+	sigStale = "lost-cas-stale-clock-add-admitted-without-wait-pass-times-too-close"
+)
+
+func contains(xs []int, v int) bool {
+	for _, x := range xs {
+		if x == v {
+			return true
+		}
+	}
+	return false
+}
+
+// monitorConc: the property on the implementation's concurrent trace.
+func monitorConc(c concCase, o concObs, rep *emit.Report) (overlap bool) {
+	T := float64(c.T)
+	maxq := int64(c.TimeoutMs) * 1000000
+	k := len(c.Batches)
+	fail := func(clause, sig, format string, a ...interface{}) {
+		rep.Fail(c.ID, clause, sig, fmt.Sprintf(format, a...), c)
+	}
+	if !o.Finished {
+		fail("C10_conc_progress", "caller-did-not-finish-in-six-steps", "a caller needed more than 6 steps")
+		return
+	}
+	type gr struct {
+		tid  int
+		pass int64
+		b    uint32
+	}
+	var grants []gr
+	for i := 0; i < k; i++ {
+		ob := o.Out[i]
+		b := c.Batches[i]
+		if b == 0 {
+			if !ob.Pass || ob.Wait != 0 {
+				fail("C10_zero_batch_inert", "zero-batch-not-passed", "caller %d: pass=%v wait=%d", i, ob.Pass, ob.Wait)
+			}
+			continue
+		}
+		if !ob.Pass {
+			if ob.BType != "flow" {
+				fail("C10_block_type", "wrong-block-type", "caller %d", i)
+			}
+			if ob.NSlp != 0 {
+				fail("C10_conc_wait_bound", "rejected-request-slept", "caller %d slept %d ns", i, ob.Wait)
+			}
+			continue
+		}
+		if early(T, b) {
+			fail("C10_reject_only_if_needed", "admitted-over-threshold", "caller %d batch %d threshold %v", i, b, T)
+			continue
+		}
+		if ob.Wait < 0 || ob.Wait > maxq {
+			fail("C10_conc_wait_bound", "wait-exceeds-max-queueing", "caller %d: wait %d ns, limit %d ns", i, ob.Wait, maxq)
+		}
+		grants = append(grants, gr{i, o.Arrival[i] + ob.Wait, b}) // pass >= arrival because wait >= 0
+	}
+	// is there a rollback that overlaps another caller's access, or a stale add?
+	overlapRollback, staleAdd := false, false
+	for i := 0; i < k; i++ {
+		p := o.Paths[i]
+		for j := range p {
+			if p[j] == 205 && j > 0 { // step j is the rollback, step j-1 the add
+				lo, hi := o.StepIdx[i][j-1], o.StepIdx[i][j]
+				for ei := lo + 1; ei < hi; ei++ {
+					if c.Events[ei].Kind == "run" && c.Events[ei].Tid != i && o.Ats[ei] >= 201 && o.Ats[ei] <= 205 {
+						// another caller accessed the shared time between the add and its rollback
+						overlapRollback = true
+					}
+				}
+			}
+		}
+		if o.Out[i].Pass && c.Batches[i] > 0 && contains(p, 202) && contains(p, 204) && o.Out[i].Wait == 0 {
+			staleAdd = true
+		}
+	}
+	overlap = overlapRollback || staleAdd
+	sort.SliceStable(grants, func(a, b int) bool { return grants[a].pass < grants[b].pass })
+	for j := 1; j < len(grants); j++ {
+		g0, g1 := grants[j-1], grants[j]
+		need := ivOf(T, c.StatMs, g1.b)
+		if g0.pass == g1.pass {
+			if n0 := ivOf(T, c.StatMs, g0.b); n0 < need {
+				need = n0
+			}
+		}
+		if g1.pass-g0.pass < need {
+			sig := "conc-pass-times-too-close"
+			switch {
+			case overlapRollback:
+				sig = sigD8
+			case staleAdd:
+				sig = sigStale
+			}
+			fail("C10_conc_spacing", sig, "callers %d and %d: pass times %d and %d, gap %d ns < interval %d ns", g0.tid, g1.tid, g0.pass, g1.pass, g1.pass-g0.pass, need)
+			break
+		}
+	}
+	return
+}
+
+func coqConc(c concCase, o concObs) string {
+	var bs, evs, ls, outs []string
+	for _, b := range c.Batches {
+		bs = append(bs, emit.U(uint64(b)))
+	}
+	for _, e := range c.Events {
+		if e.Kind == "clock" {
+			evs = append(evs, "SetClock "+emit.U(e.Ns))
+		} else {
+			evs = append(evs, fmt.Sprintf("Run %d", e.Tid))
+		}
+	}
+	for _, l := range o.Labels {
+		ls = append(ls, emit.Z(int64(l)))
+	}
+	for _, ob := range o.Out {
+		outs = append(outs, coqObs(ob))
+	}
+	return fmt.Sprintf("Conc %d %s %d %d %s %s %s %s", c.ID, emit.F(float64(c.T)), c.TimeoutMs, c.StatMs, emit.List(bs), emit.List(evs), emit.List(ls), emit.List(outs))
+}
+
 func runConcCase(a cli.Args, root *rng.R, rep *emit.Report, dist *emit.Distinct, sh *emit.Shards, clk *vclock.Clock, id int, corr bool) {
+	c := genConc(root.Fork(uint64(id)), id)
+	o := runConc(c, clk)
+	rep.Evaluations++
+	overlap := monitorConc(c, o, rep)
+	rep.Count("conc_cases", 1)
+	rep.Count("conc_events", len(c.Events))
+	rep.Count("conc_callers", len(c.Batches))
+	inter := false // at least two callers simultaneously inside DoCheck
+	{
+		open := map[int]bool{}
+		for ei, e := range c.Events {
+			if e.Kind != "run" {
+				continue
+			}
+			l := o.Labels[ei]
+			if l >= 201 {
+				open[e.Tid] = true
+			} else {
+				delete(open, e.Tid)
+			}
+			if len(open) >= 2 {
+				inter = true
+			}
+		}
+	}
+	if inter {
+		rep.Count("conc_interleaved", 1)
+		b, _ := json.Marshal(c)
+		dist.Add(string(b))
+	}
+	if overlap {
+		rep.Count("conc_rollback_overlap_or_stale_add", 1)
+	}
+	for i := range c.Batches {
+		if contains(o.Paths[i], 205) {
+			rep.Count("conc_rollbacks", 1)
+		}
+		if contains(o.Paths[i], 202) && contains(o.Paths[i], 203) {
+			rep.Count("conc_lost_cas", 1)
+		}
+		if o.Out[i].Pass {
+			rep.Count("conc_admitted", 1)
+		} else {
+			rep.Count("conc_rejected", 1)
+		}
+	}
+	if corr && sh != nil {
+		sh.Add(id, coqConc(c, o))
+		rep.CorrCases++
+		rep.CaseInputs[strconv.Itoa(id)] = c
+		if id == concBase {
+			rep.Sample(map[string]interface{}{"input": c, "observed": o})
+		}
+	}
+	if a.Only >= 0 {
+		out, _ := json.MarshalIndent(map[string]interface{}{"input": c, "observed": o, "coq": coqConc(c, o)}, "", " ")
+		fmt.Println(string(out))
+	}
 }
